@@ -360,9 +360,12 @@ package pdf
 //@   ensures err != nil && !malformed(err) ==> s.src.fails
 //@   ensures err != io.EOF
 
+// recursion variants (C05): ReadObject -> ReadArray / ReadDict -> ReadObject strictly decreases
+// 2 * (257 - nestDepth) (+ 1 for ReadObject), so the call nesting is bounded by the 256-level cap
 //@ func (*scanner).ReadArray (s) (array, err)
 //@   tags C01 C04 C05 C19 C20
 //@   requires RN(s)
+//@   variant 2 * (257 - s.nestDepth)
 //@   assigns s.filePos, s.pos, s.used, s.err, elems(s.buf), s.src.rdpos, s.nestDepth
 //@   ensures RN(s) && scanFrame(s) && apos(s) >= old(apos(s)) && s.nestDepth == old(s.nestDepth)
 //@   ensures s.enc == nil ==> (err != nil && !malformed(err) ==> s.src.fails)
@@ -375,6 +378,7 @@ package pdf
 //@ func (*scanner).ReadDict (s) (dict, err)
 //@   tags C01 C04 C05 C19 C20
 //@   requires RN(s)
+//@   variant 2 * (257 - s.nestDepth)
 //@   assigns s.filePos, s.pos, s.used, s.err, elems(s.buf), s.src.rdpos, s.nestDepth
 //@   ensures RN(s) && scanFrame(s) && apos(s) >= old(apos(s)) && s.nestDepth == old(s.nestDepth)
 //@   ensures s.enc == nil ==> (err != nil && !malformed(err) ==> s.src.fails)
@@ -386,6 +390,7 @@ package pdf
 //@ func (*scanner).ReadObject (s) (obj, err)
 //@   tags C01 C04 C05 C19 C20
 //@   requires RN(s)
+//@   variant 2 * (257 - s.nestDepth) + 1
 //@   assigns s.filePos, s.pos, s.used, s.err, elems(s.buf), s.src.rdpos, s.nestDepth
 //@   ensures RN(s) && scanFrame(s) && apos(s) >= old(apos(s)) && s.nestDepth == old(s.nestDepth)
 //@   ensures s.enc == nil ==> (err != nil && !malformed(err) && err != io.EOF ==> s.src.fails)
@@ -678,10 +683,13 @@ package pdf
 //@   assigns *
 //@   ensures \local_in != nil ==> \local_in.closed
 
+// the filter chain is capped at 8 entries (C08)
 //@ func GetFilters (r, path, dict) (res, err)
-//@   tags C05
+//@   tags C05 C08
 //@   requires r != nil
 //@   assigns *
+//@   ensures err == nil ==> len(res) <= 8
+//@   loop 1: invariant len(\local_res) <= \done && \done <= 8
 
 //@ func DecodeStream (r, path, x) (rd, err)
 //@   tags C05 C08
@@ -838,3 +846,10 @@ package pdf
 //@   requires w != nil && w.w != nil && w.w.w != nil
 //@   assigns *
 //@   ensures err == nil && old(!((ref % 4294967296) in w.xref) || w.xref[ref % 4294967296] == nil || w.xref[ref % 4294967296].InStream == 0) ==> w.origW.seekfails == old(w.origW.seekfails)
+
+// ---- /Filter and /DecodeParms are inlined entry by entry (C11): the arrays keep their length,
+// ---- so that the i-th parameter dictionary still belongs to the i-th filter
+//@ func inlineFilterRefs (r, val) (res, err)
+//@   tags C11
+//@   assigns nothing
+//@   ensures err == nil && \local_ok ==> istype(res, Array) && len(as(res, Array)) == len(\local_arr)
